@@ -133,6 +133,7 @@ MUTANTS = [
     ('C08', 'supp/evaluator.py', r"        if cname and not any\(cname is r for r in result\):", "        if cname:", 'C08-R4'),
     ('C08', 'supp/linter.py', r"    try:\n        source\.tree\n    except SyntaxError as e:\n        return \[\('E01', e\.msg, e\.lineno, e\.offset, None\)\]", "    source.tree", 'C08-R1'),
     ('C08', 'supp/assistant.py', r"    try:\n        location, filename = name\.declared_at, name\.filename\n    except AttributeError:\n        return None", "    location, filename = name.declared_at, name.filename", 'C08-R3'),
+    ('C08', 'supp/nast.py', r"        # type: \(ast\.FunctionDef\) -> None\n        self\.visit_type_params\(node\)\n", "        # type: (ast.FunctionDef) -> None\n", 'C08-R3'),
     ('C11', 'supp/assistant.py', r"location, filename = name\.declared_at, name\.filename", "location, filename = name.location, name.filename", 'C11-R2'),
     ('C11', 'supp/assistant.py', r"location = ln, col - len\(SOURCE_MARK\)", "location = ln, col", 'C11-R2'),
     ('C11', 'supp/assistant.py', r"if ln == position\[0\] and col > position\[1\]:", "if col > position[1]:", 'C11-R2'),
